@@ -42,12 +42,16 @@ NATIVE = {
     "C04": [
         ("C04:Stack.build", "histogrammar.primitives.stack.Stack.build", "bounded:built-stack-and-its-clones-interchangeable",
          "Stack.build of three filled Bins (all thresholds NaN, outside the wf of the proved Stack contracts): pickle clone, JSON reload and copy serialise identically and can be merged with the original and with each other, scaled, added to their zero()"),
+        ("C04:duplicate-edges", "histogrammar.primitives.irregularlybin.IrregularlyBin.fromJsonFragment", "bounded:repeated-thresholds-survive-the-round-trip",
+         "IrregularlyBin and Stack with repeated / unordered thresholds ([1, 1, 3], [3, 1, 1]; outside the wf `strictly increasing` of the proved contracts), Count and Sum bins, filled with 5 data: strict dumps, the reload has as many bins and serialises identically, original + reload = original * 2"),
         ("C04:Bag.json", "histogrammar.primitives.bag.Bag.toJsonFragment", "bounded:json-roundtrip",
          "Bag of range N / S / N2 filled with up to 2 data from the critical alphabet (incl. nan, +-inf): strict dumps, reload re-serialises identically, reloaded usable under zero/copy/+/*"),
     ],
     "C15": [
         ("C15:version", "histogrammar.version.compatible", "bounded:version-grid",
          "version strings <a>.<b>[.<c>] for a, b up to two above the library's, and malformed strings; used through its assumed contract in Factory.fromJson"),
+        ("C15:duplicate-edges", "histogrammar.primitives.irregularlybin.IrregularlyBin.ed", "bounded:nothing-dropped-from-a-document-with-repeated-thresholds",
+         "the documents of C04:duplicate-edges: fromJson returns a container with every bin of the document (faithfulness outside the wf `strictly increasing`)"),
         ("C15:Bag.json", "histogrammar.primitives.bag.Bag.fromJsonFragment", "bounded:single-point-mutations",
          "all single-point structural mutations (delete key, add key, retype value, rename type, negative entries, version) of 6 Bag documents"),
     ],
@@ -70,7 +74,7 @@ NATIVE = {
     ],
     "C12": [
         ("C12:rollback", "histogrammar.defs.Container.fill", "bounded:failing-fill-leaves-the-tree-bit-identical",
-         "every class x failing child {Sum, Average, Deviate, Minimize, Maximize, Bin, SparselyBin, Categorize} x failure mode {exception, list, complex, numpy.str_}, after prefixes filled with weight 1 and with weight 0.1, failing fill with weight 1 and 0.2 (an undo by subtraction is not exact in doubles): the JSON before and after the failing fill is identical - the rounding level that A-REAL abstracts"),
+         "every class x failing child {Sum, Average, Deviate, Minimize, Maximize, Bin, SparselyBin, Categorize} x failure mode {exception, list, complex, numpy.str_, an int beyond the float range (+-10**400: OverflowError where it is converted)}, after prefixes filled with weight 1 and with weight 0.1, failing fill with weight 1 and 0.2 (an undo by subtraction is not exact in doubles): the JSON before and after the failing fill is identical - the rounding level that A-REAL abstracts"),
     ],
     "C02": [
         ("C02:Stack.unsorted", "histogrammar.primitives.stack.Stack.fill", "bounded:levels-of-an-unsorted-stack",
@@ -81,8 +85,10 @@ NATIVE = {
     "C09": [
         ("C09:Bag.vector", "histogrammar.primitives.bag.Bag.__eq__", "bounded:vector-keys-eq-sound-complete",
          "Bag of range N2 / N3 filled with up to 3 vectors over {0.5, -1, nan, inf}: equal to its copy, pickle clone and refill (== and !=); one component of one key replaced (incl. nan vs number) makes them unequal"),
+        ("C09:cross-class", "histogrammar.defs.Container.__eq__", "bounded:different-classes-unequal",
+         "all ordered pairs of different classes among the 19, two child kinds each, empty and filled with the same two data (Label / UntypedLabel with the same keys, Index / Branch with the same children, IrregularlyBin / Stack with the same thresholds ...): == is False and != is True in both operand orders, without raising"),
         ("C09:clones", "histogrammar.defs.Container.__eq__", "bounded:clones-compare-equal",
-         "every class x child kind, filled with 0..4 data (incl. NaN): equal to an identically filled twin, to its pickle clone, and two JSON reloads of one document equal each other (== and !=); Stack.build (all thresholds NaN) equal to its copy, pickle clone and JSON reload - the states outside the wf of the proved __eq__ contracts"),
+         "every class x child kind, filled with 0..4 data (incl. NaN): equal to an identically filled twin, to its pickle clone, and two JSON reloads of one document equal each other (== and !=); Stack.build (all thresholds NaN) equal to its copy, pickle clone and JSON reload; the same documents with the root's entries set to NaN: two reloads, the copy and the pickle clone compare equal - the states outside the wf of the proved __eq__ contracts"),
         ("C09:Bag.__eq__", "histogrammar.primitives.bag.Bag.__eq__", "bounded:eq-sound-complete-total",
          "Bag of range N filled with all sequences of length <= 2 over {0.5, 2.0, inf, -inf, nan, -3.0} plus structural variants; == and != against copies, one-datum differences and non-Bag operands"),
     ],
@@ -108,7 +114,7 @@ NATIVE = {
         ("C13:mpv", "histogrammar.primitives.bin.Bin.mpv", "bounded:mpv-is-centre-of-fullest-bin",
          "one filled instance of Bin, SparselyBin, CentrallyBin, IrregularlyBin: mpv equals the centre of the first bin holding the maximum"),
         ("C13:grid", "histogrammar.plot.hist_numpy.get_2dgrid", "bounded:grid-holds-in-range-weights",
-         "Bin x Bin, SparselyBin x SparselyBin, Bin x SparselyBin filled with 12 weighted points (in range, under/overflow, NaN): grid shape, total = in-range weight, rows / columns = projections"),
+         "Bin x Bin, SparselyBin x SparselyBin, Bin x SparselyBin, IrregularlyBin x IrregularlyBin filled with 12 weighted points (in range, under/overflow, NaN in x or in y): grid shape, total = in-range weight, rows / columns = projections; project_on_x / project_on_y of the two-dimensional histogram methods hold the in-range weight and equal the sums of xy_ranges_grid bin by bin"),
     ],
     "C17": [
         ("C17:string-expr", "histogrammar.util.UserFcn.__call__", "bounded:string-expression-equals-function",
